@@ -705,6 +705,12 @@ func (p *CaseForm) typecheckForm(gammaNameTypesCtx NamesTypesCtx, providerShadow
 				return TypeErrorf("branch labelled '%s' does not match the branches of type '%s'", curBranchForm.StringShort(), providerBranchCaseType.String())
 			}
 
+			// The payload names the provider from here on, so it cannot hide a name that is still in gamma
+			if nameTypeExists(gammaNameTypesCtx, curBranchForm.payload_c.Ident) {
+				// Name is not fresh
+				return TypeErrorf("variable name '%s' is already defined. Use unique names in %s", curBranchForm.payload_c.String(), curBranchForm.StringShort())
+			}
+
 			// Set type
 			curBranchForm.payload_c.Type = types.Unfold(expectedBranchType.SessionType, labelledTypesEnv)
 
@@ -771,6 +777,16 @@ func (p *CaseForm) typecheckForm(gammaNameTypesCtx NamesTypesCtx, providerShadow
 			newGammaNameTypesCtx := copyContext(gammaNameTypesCtx)
 
 			// curBranchForm.payload_c cannot exist in gammaNameTypesCtx
+			if nameTypeExists(gammaNameTypesCtx, curBranchForm.payload_c.Ident) {
+				// Name is not fresh (it would silently replace a name that still has to be used)
+				return TypeErrorf("variable name '%s' is already defined. Use unique names in %s", curBranchForm.payload_c.String(), curBranchForm.StringShort())
+			}
+
+			if isProvider(curBranchForm.payload_c, providerShadowName) {
+				// Unwanted reference to self
+				return TypeErrorf("variable name '%s' should not refer to self", curBranchForm.payload_c.String())
+			}
+
 			newGammaNameTypesCtx[curBranchForm.payload_c.Ident] = NamesType{Type: expectedBranchType.SessionType}
 
 			// Set type
